@@ -7,13 +7,16 @@ from rv.model import micheline_bin as MB
 LEVEL = 'exploration'
 SHARDS = {'quick': 4, 'thorough': 16}
 
-NAMES = [None, 'a', 'b', 'c', 'default', 'root']
+NAMES = [None, 'a', 'b', 'c', 'default', 'root', '']      # '' = the bare annotation `%`, which names nothing
 LEAF_TYPES = [
     ({'prim': 'unit'}, [{'prim': 'Unit'}]),
     ({'prim': 'nat'}, [{'int': '0'}, {'int': '7'}]),
     ({'prim': 'pair', 'args': [{'prim': 'nat', 'annots': ['%x']}, {'prim': 'string', 'annots': ['%y']}]}, [{'prim': 'Pair', 'args': [{'int': '1'}, {'string': 's'}]}]),
     ({'prim': 'option', 'args': [{'prim': 'bool'}]}, [{'prim': 'None'}, {'prim': 'Some', 'args': [{'prim': 'True'}]}]),
     ({'prim': 'list', 'args': [{'prim': 'or', 'args': [{'prim': 'nat', 'annots': ['%inner']}, {'prim': 'unit'}]}]}, [[], [{'prim': 'Left', 'args': [{'int': '3'}]}]]),
+    # payloads whose readable and optimized spellings differ
+    ({'prim': 'timestamp'}, [{'string': '1970-01-01T00:00:10Z'}, {'string': '2022-06-08T15:57:00Z'}]),
+    ({'prim': 'address'}, [{'string': 'KT1BEqzn5Wx8uJrZNvuS9DVHmLvG9td3fDLi'}, {'string': 'tz1VSUr8wwNhLAzempoch5d6hLRiTh8Cjcjb'}]),
 ]
 
 
@@ -43,7 +46,7 @@ def build_type(shape, ann, leaf_types, path=''):
     else:
         e = {'prim': 'or', 'args': [build_type(shape[0], ann, leaf_types, path + '0'), build_type(shape[1], ann, leaf_types, path + '1')]}
     name = ann.get(path)
-    if name:
+    if name is not None:
         e = dict(e)
         e['annots'] = ['%' + name] + [a for a in e.get('annots', []) if not a.startswith('%')]
     return e
@@ -197,6 +200,33 @@ def judge(ctx, shape, ann, leaf_types):
         nname, nval = normal_form(shape, ann, root, V)
         if d.get('entrypoint') != nname or MB.nf(d.get('value')) != MB.nf(nval):
             ctx.violation('C13|pair-not-in-innermost-normal-form|' + pc, 'V=%r -> %r, innermost annotated node gives (%s, %r)' % (V, d, nname, nval), vcase)
+            continue
+        # the same decoded object converted again in another mode: the argument comes in that mode's spelling
+        try:
+            from rv.model import pack as PK
+            from rv.model import types as T_
+            npath = eps.get(nname, '') if nname in eps else ''
+            nt = T_.from_micheline(strip_all(subtree_type(shape, ann, leaf_types, npath)))
+            want_opt = PK.render(PK.parse(nval, nt), nt, 'optimized')
+            d_opt = ps.to_parameters(mode='optimized')
+            d_again = ps.to_parameters(mode='readable')
+            ctx.count('second_conversions_of_the_same_object')
+            if d_opt.get('entrypoint') != nname or MB.nf(d_opt.get('value')) != MB.nf(want_opt):
+                ctx.violation('C13|to_parameters-second-call-in-another-mode|' + pc, 'optimized after readable: %r, model %r' % (d_opt, want_opt), vcase)
+            elif MB.nf(d_again.get('value')) != MB.nf(d.get('value')):
+                ctx.violation('C13|to_parameters-second-call-in-another-mode|' + pc, 'readable again: %r, first %r' % (d_again, d), vcase)
+        except (PK.ParseError, PK.Uncertain):
+            ctx.count('values_not_readable_by_the_typed_model')
+        except Exception as e:
+            ctx.violation('C13|to_parameters-second-call-raises|' + pc, repr(e)[:200], vcase)
+        # the pair given with its members in the other order is the same pair
+        try:
+            swapped = P.from_parameters({'value': d['value'], 'entrypoint': d['entrypoint']}).to_micheline_value()
+            ctx.count('pairs_given_value_first')
+            if MB.nf(swapped) != MB.nf(V):
+                ctx.violation('C13|from_parameters-depends-on-member-order|' + pc, 'value-first pair %r -> %r' % (d, swapped), vcase)
+        except Exception as e:
+            ctx.violation('C13|from_parameters-depends-on-member-order|' + pc, 'value-first pair %r: %r' % (d, e), vcase)
     # 3. every listed entrypoint and argument -> full value -> pair -> same full value
     for name in sorted(want_names):
         path = eps[name] if name in eps else ''
@@ -319,7 +349,7 @@ def placements(rng, shape, limit):
         named = [c for c in combo if c]
         if len(named) != len(set(named)):
             continue  # duplicate entrypoint names are not a valid parameter type
-        if combo[0] is None and 'default' in combo[1:] and 'root' in combo[1:]:
+        if not combo[0] and 'default' in combo[1:] and 'root' in combo[1:]:
             continue  # the name of the unannotated root would collide with a branch called %root: not decided
         yield dict(zip(nodes, combo))
 
